@@ -48,6 +48,7 @@ type history struct {
 	tickIdx      int
 	rootClosed   bool
 	inconclusive bool
+	dead         bool // a call did not return in time: the tree is considered hung, nothing more is executed
 }
 
 // fire is a lower bound of the instant of the j-th tick (the ticker was started at or after t0).
@@ -62,13 +63,15 @@ func (h *history) inWindow() bool {
 func (h *history) collect(block bool) string {
 	var sb strings.Builder
 	rest := h.pending[:0]
+	limit := time.After(waitLimit) // one deadline for all of them
 	for _, p := range h.pending {
 		if block {
 			select {
 			case err := <-p.ch:
 				fmt.Fprintf(&sb, " r%d=%s", p.id, classify(err))
-			case <-time.After(waitLimit):
+			case <-limit:
 				fmt.Fprintf(&sb, " r%d=never-answered", p.id)
+				limit = time.After(0)
 			}
 			continue
 		}
@@ -150,6 +153,7 @@ func (h *history) op(f []string) string {
 		select {
 		case <-ch:
 		case <-time.After(waitLimit):
+			h.dead = true
 			return "tick-timeout"
 		}
 		h.root.Closed() // barrier: returns once the ticker goroutine has left its critical section
@@ -217,7 +221,7 @@ func runHistory(lines []string) []string {
 	out := make([]string, 0, len(lines))
 	var h *history
 	defer func() {
-		if h != nil && !h.rootClosed {
+		if h != nil && !h.rootClosed && !h.dead && h.root != nil {
 			go h.root.Close() // stop the ticker; not part of the history
 		}
 	}()
@@ -247,7 +251,25 @@ func runHistory(lines []string) []string {
 			out = append(out, "inconclusive")
 			continue
 		}
-		o := hx.Safe(func() string { return h.op(f) })
+		if h.dead {
+			out = append(out, "not-executed-after-hang")
+			continue
+		}
+		res := make(chan string, 1)
+		go func(h *history) { res <- hx.Safe(func() string { return h.op(f) }) }(h)
+		var o string
+		select {
+		case o = <-res:
+		case <-time.After(waitLimit + 2*time.Second):
+			// the call itself never returned (the lock is held for ever): conclusive, and the end of this history
+			out = append(out, "hang")
+			h = &history{dead: true, rootClosed: true, period: h.period, t0: h.t0}
+			continue
+		}
+		if h.dead {
+			out = append(out, o)
+			continue
+		}
 		if !h.inconclusive && !h.inWindow() {
 			// this call (and everything after it) may have happened after the next tick
 			h.inconclusive = true
@@ -332,7 +354,64 @@ func genPressure(r *hx.Rng, emit func(string)) int {
 	return cnt
 }
 
+// genSetCap: a limiter is filled, a further request has to queue, then SetCap changes the cap of the limiter itself or of
+// an ancestor (below the queued amount, exactly to it, or above) before the tick; afterwards the tree must still answer.
+func genSetCap(r *hx.Rng, emit func(string)) int {
+	cnt := 0
+	out := func(s string) { emit(s); cnt++ }
+	depth := r.Intn(3) // the target is the root, a child or a grandchild
+	ct := r.Range(2, 9)
+	caps := make([]int, depth+1)
+	for i := range caps {
+		caps[i] = ct + r.Intn(4) // the ancestors have at least the target's cap
+	}
+	caps[depth] = ct
+	out("reset " + strconv.Itoa(caps[0]))
+	for i := 1; i <= depth; i++ {
+		out(fmt.Sprintf("new %d %d", i-1, caps[i]))
+	}
+	t := depth
+	out(fmt.Sprintf("use %d %d", t, ct)) // fills the target for this period
+	q := r.Range(1, ct)
+	out(fmt.Sprintf("use %d %d", t, q)) // has to queue
+	if r.Chance(1, 3) {
+		out(fmt.Sprintf("use %d %d", r.Intn(depth+1), r.Range(1, 3)))
+	}
+	victim := t
+	if depth > 0 && r.Chance(1, 2) {
+		victim = r.Intn(depth) // an ancestor
+	}
+	nc := hx.Pick(r, []int{q - 1, q - 1, q - 1, 0, q, q + 1, ct + 5})
+	if nc < 0 {
+		nc = 0
+	}
+	out(fmt.Sprintf("setcap %d %d", victim, nc))
+	if r.Chance(1, 3) {
+		out(fmt.Sprintf("cap %d 1", t))
+	}
+	out("tick")
+	out(fmt.Sprintf("use %d 1", t))
+	out(fmt.Sprintf("use %d %d", r.Intn(depth+1), r.Range(0, 3)))
+	if r.Chance(1, 2) {
+		out(fmt.Sprintf("setcap %d %d", victim, hx.Pick(r, []int{ct, ct + 3, 1, q})))
+	}
+	if r.Chance(1, 2) {
+		out(fmt.Sprintf("last %d", r.Intn(depth+1)))
+	}
+	out("tick")
+	if r.Chance(1, 2) {
+		out(fmt.Sprintf("use %d %d", t, r.Range(1, 4)))
+		out("tick")
+	}
+	out("close 0")
+	out(fmt.Sprintf("closed %d", t))
+	return cnt
+}
+
 func genHistory(r *hx.Rng, emit func(string)) int {
+	if r.Chance(1, 6) {
+		return genSetCap(r, emit)
+	}
 	if r.Chance(2, 5) {
 		return genPressure(r, emit)
 	}
